@@ -50,7 +50,8 @@ RULE = ("P (pipeline scenarios): a 4-gene linear record and a 3-gene circular re
         "distinct = distinct case.")
 EXHAUSTIVE = {"quick": True, "thorough": False}
 
-STAGES = ["detection-json", "protoclusters", "candidates", "regions", "genbank", "json"]
+STAGES = ["detection-json", "protoclusters", "candidates", "regions", "unique-protoclusters", "areas", "genbank", "json"]
+FULL_TEXT_STAGES = ("detection-json", "protoclusters", "candidates", "regions", "unique-protoclusters", "areas")
 
 RULES_TEXT = """
 RULE ra CATEGORY Cat CUTOFF 3 NEIGHBOURHOOD 1 CONDITIONS a
@@ -189,6 +190,28 @@ def run_pipeline(scn: dict[str, Any]) -> dict[str, str]:
         for proto in results.protoclusters:
             rec.add_protocluster(proto)
         results.annotate_cds_features()
+        wrapped = mod["hmm_detection"].HMMDetectionResults(rec.id, results, ["ra", "rb", "rab", "rc", "rac"], "relaxed")
+        stage = _finish_record(rec, out, {"antismash.detection.hmm_detection": wrapped})
+    except Exception as err:  # pylint: disable=broad-except
+        if "detection-json" not in out:
+            out["detection-json"] = f"EXCEPTION at {stage}: {type(err).__name__}: {err}"[:400]
+        _fail_stages(out, stage, err)
+    return out
+
+
+class _StageError(Exception):
+    def __init__(self, stage: str, err: Exception) -> None:
+        super().__init__(str(err))
+        self.stage = stage
+        self.err = err
+
+
+def _finish_record(rec: Any, out: dict[str, str], module_results: dict[str, Any]) -> str:
+    """ protoclusters are in the record: dump them, build candidate clusters and regions, dump those, the
+        order of Region.get_unique_protoclusters, the 'areas' section of the JSON output, GenBank and JSON """
+    mod = _modules()
+    stage = "protoclusters"
+    try:
         out["protoclusters"] = json.dumps([[rec.get_protocluster_number(p), p.product, str(p.location),
                                             str(p.core_location)] for p in rec.get_protoclusters()])
         stage = "candidates"
@@ -199,24 +222,107 @@ def run_pipeline(scn: dict[str, Any]) -> dict[str, str]:
         stage = "regions"
         rec.create_regions()
         out["regions"] = json.dumps([[r.get_region_number(), r.products,
-                                      [rec.get_candidate_cluster_number(c) for c in r.candidate_clusters],
-                                      [rec.get_protocluster_number(p) for p in r.get_unique_protoclusters()]]
+                                      [rec.get_candidate_cluster_number(c) for c in r.candidate_clusters]]
                                      for r in rec.get_regions()])
+        stage = "unique-protoclusters"
+        out["unique-protoclusters"] = json.dumps([[r.get_region_number(), bool(r.crosses_origin()),
+                                                   [rec.get_protocluster_number(p) for p in r.get_unique_protoclusters()]]
+                                                  for r in rec.get_regions()])
         stage = "genbank"
         handle = io.StringIO()
         mod["SeqIO"].write(rec.to_biopython(), handle, "genbank")
         out["genbank"] = handle.getvalue()
         stage = "json"
-        wrapped = mod["hmm_detection"].HMMDetectionResults(rec.id, results, ["ra", "rb", "rab", "rc", "rac"], "relaxed")
-        full = mod["serialiser"].AntismashResults("input.gbk", [rec], [{"antismash.detection.hmm_detection": wrapped}],
-                                                  "verif")
+        full = mod["serialiser"].AntismashResults("input.gbk", [rec], [module_results], "verif")
         handle = io.StringIO()
         full.write_to_file(handle)
         out["json"] = handle.getvalue()
+        stage = "areas"
+        out["areas"] = json.dumps(json.loads(out["json"])["records"][0]["areas"])
     except Exception as err:  # pylint: disable=broad-except
-        text = f"EXCEPTION at {stage}: {type(err).__name__}: {err}"[:400]
-        for later in STAGES[STAGES.index(stage) if stage in STAGES else 0:]:
+        raise _StageError(stage, err) from err
+    return stage
+
+
+def _fail_stages(out: dict[str, str], stage: str, err: Exception) -> None:
+    if isinstance(err, _StageError):
+        stage, err = err.stage, err.err
+    text = f"EXCEPTION at {stage}: {type(err).__name__}: {err}"[:400]
+    for later in STAGES:
+        if later not in out and later != "detection-json" or later == stage:
             out.setdefault(later, text)
+
+
+# ---- A family: areas of records whose protoclusters are given directly
+
+AREA_GENES = [["g1", 500, 1500, 1], ["g2", 6000, 7000, -1], ["g3", 18500, 19500, 1]]
+AREA_LEN = 20000
+# name: (circular only?, core parts, surrounding parts)
+AREA_TEMPLATES: dict[str, tuple[bool, list[list[int]], list[list[int]]]] = {
+    "mid": (False, [[6000, 7000]], [[5000, 8000]]),
+    "edge": (False, [[500, 1500]], [[0, 2500]]),
+    "wrap-surround": (True, [[18500, 19500]], [[17500, 20000], [0, 500]]),
+    "wrap-core": (True, [[18500, 20000], [0, 1500]], [[17500, 20000], [0, 2500]]),
+}
+AREA_EXTRAS: dict[str, list[list]] = {
+    "none": [],
+    "overlapping": [["px", [[6500, 7000]], [[5500, 9000]]]],        # another protocluster, other coordinates
+    "wrapping": [["px", [[19000, 19500]], [[18000, 20000], [0, 1000]]]],  # circular records only
+}
+
+
+def area_cases(tier: str) -> list[dict[str, Any]]:
+    """ 2-3 protoclusters of different products with identical coordinates (+ optionally one more with other
+        coordinates), on a linear record and on a ring, inside / next to / across the origin, added to the
+        record in both orders """
+    out = []
+    products = [["pa", "pb"], ["pa", "pb", "pc"]] + ([["pc", "pa"], ["pb", "pc", "pa"]] if tier != "quick" else [])
+    for circular in (False, True):
+        for name, (needs_ring, core, surround) in AREA_TEMPLATES.items():
+            if needs_ring and not circular:
+                continue
+            for prods in products:
+                for extra_name, extra in AREA_EXTRAS.items():
+                    if extra_name == "wrapping" and not circular:
+                        continue
+                    for reverse in (False, True):
+                        protos = [[prod, core, surround] for prod in prods] + [list(e) for e in extra]
+                        if reverse:
+                            protos.reverse()
+                        out.append({"fn": "areas", "len": AREA_LEN, "circular": circular, "genes": AREA_GENES,
+                                    "template": name, "extra": extra_name, "protos": protos})
+    return out
+
+
+def run_areas(case: dict[str, Any]) -> dict[str, str]:
+    """ -> {stage: text} for a record that gets the protoclusters of the case directly """
+    mod = _modules()
+    out: dict[str, str] = {}
+    try:
+        from antismash.common.secmet.features import Protocluster  # pylint: disable=import-outside-toplevel
+        from antismash.common.secmet.locations import CompoundLocation  # pylint: disable=import-outside-toplevel
+
+        def location(parts: list[list[int]]) -> Any:
+            locs = [mod["FeatureLocation"](a, b, 1) for a, b in parts]
+            return locs[0] if len(locs) == 1 else CompoundLocation(locs)
+        rec = mod["Record"](mod["Seq"]("A" * case["len"]))
+        rec.id = "rec1"
+        rec.name = "rec1"
+        if case["circular"]:
+            rec.annotations["topology"] = "circular"
+        for name, start, end, strand in case["genes"]:
+            rec.add_cds_feature(mod["CDSFeature"](mod["FeatureLocation"](start, end, strand), locus_tag=name,
+                                                  translation="M" * ((end - start) // 3)))
+        for product, core, surround in case["protos"]:
+            rec.add_protocluster(Protocluster(location(core), location(surround), "rule-based-clusters", product,
+                                              1000, 1000, "rule " + product, "Cat"))
+    except Exception as err:  # pylint: disable=broad-except
+        _fail_stages(out, "protoclusters", err)
+        return out
+    try:
+        _finish_record(rec, out, {})
+    except Exception as err:  # pylint: disable=broad-except
+        _fail_stages(out, "protoclusters", err)
     return out
 
 
@@ -224,9 +330,11 @@ def _digest(stages: dict[str, str]) -> dict[str, str]:
     """ what a child reports per scenario: the small dumps in full, the big ones as digests """
     out = {}
     for stage in STAGES:
-        text = stages.get(stage, "")
-        out[stage] = text if stage in ("detection-json", "protoclusters", "candidates", "regions") \
-            or text.startswith("EXCEPTION") else hashlib.sha1(text.encode()).hexdigest()
+        if stage not in stages:
+            continue
+        text = stages[stage]
+        out[stage] = text if stage in FULL_TEXT_STAGES or text.startswith("EXCEPTION") \
+            else hashlib.sha1(text.encode()).hexdigest()
     return out
 
 
@@ -371,10 +479,57 @@ def p_equal_up_to_tied_order(stage: str, dumps: list[str]) -> bool:
         data = json.loads(text)
         if stage == "candidates":
             return json.dumps(sorted([kind, loc, sorted(protos)] for _, kind, loc, protos in data))
-        return json.dumps(sorted([sorted(products), len(cands), sorted(protos)] for _, products, cands, protos in data))
+        return json.dumps(sorted([sorted(products), len(cands)] for _, products, cands in data))
     try:
         return len({norm(text) for text in dumps}) == 1
     except (ValueError, TypeError):
+        return False
+
+
+def p_unique_order_only_plain_ties(unique_dumps: list[str], proto_dumps: list[str]) -> bool:
+    """ What Region.get_unique_protoclusters did, read off its results: every region lists the same
+        protoclusters in all variants; where the order differs, the region does NOT cross the origin (that
+        branch is `sorted(set)` with Feature.__lt__, which ties on equal coordinates - the origin-crossing
+        branch sorts with a key that ends in the product and must not tie) and only protoclusters with
+        identical coordinates changed places (the sequence of locations is the same in all variants). """
+    try:
+        if len(set(proto_dumps)) != 1:
+            return False
+        location = {entry[0]: entry[2] for entry in json.loads(proto_dumps[0])}
+        variants = [json.loads(text) for text in unique_dumps]
+        if len({len(v) for v in variants}) != 1:
+            return False
+        for regions in zip(*variants):
+            if len({json.dumps(sorted(r[2])) for r in regions}) != 1 or len({r[1] for r in regions}) != 1:
+                return False
+            if len({json.dumps(r[2]) for r in regions}) == 1:
+                continue
+            if regions[0][1]:  # crosses the origin: total key, the order must not vary
+                return False
+            if len({json.dumps([location[n] for n in r[2]]) for r in regions}) != 1:
+                return False
+        return True
+    except (ValueError, TypeError, KeyError, IndexError):
+        return False
+
+
+def p_areas_equal_up_to_order(dumps: list[str]) -> bool:
+    """ the 'areas' sections agree once the numbering of the protoclusters of a region and the order of
+        protoclusters inside a candidate are ignored """
+    def norm(text: str) -> str:
+        out = []
+        for region in json.loads(text):
+            protos = region.get("protoclusters", {})
+            cands = sorted([c["start"], c["end"], c["kind"], sorted(json.dumps(protos[str(i)], sort_keys=True)
+                                                                     for i in c["protoclusters"])]
+                           for c in region.get("candidates", []))
+            out.append([region["start"], region["end"], sorted(region["products"]),
+                        sorted(json.dumps(v, sort_keys=True) for v in protos.values()), cands,
+                        region.get("subregions", [])])
+        return json.dumps(out)
+    try:
+        return len({norm(text) for text in dumps}) == 1
+    except (ValueError, TypeError, KeyError, AttributeError):
         return False
 
 
@@ -414,21 +569,34 @@ def _f2(clause: str, case: Any) -> bool:
 
 
 def _f3(clause: str, case: Any) -> bool:
-    """ two protoclusters with identical coordinates, the protocluster dump itself is stable, and the
-        candidate / region dumps of the variants differ ONLY in the order of protoclusters inside a candidate
-        cluster / of products / of unique protoclusters (that order follows a set of protocluster objects) """
-    if not _is_pipeline(case) or _kind(clause) not in ("seed", "setorder"):
+    """ two protoclusters with identical coordinates, the protocluster dump itself is stable, and the variants
+        differ ONLY in what formation.py's `sorted(<set of protoclusters>)` and the non-origin branch of
+        Region.get_unique_protoclusters (`sorted(clusters)`) leave to set order: the order of equal-coordinate
+        protoclusters inside a candidate cluster (and the product order derived from it), and of the unique
+        protoclusters of a region that does not cross the origin (numbering of 'areas') """
+    if not isinstance(case, dict) or case.get("fn") not in ("pipeline", "areas"):
+        return False
+    if _kind(clause) not in ("seed", "setorder"):
         return False
     if not _obs(case, "tied_protoclusters") or _obs(case, "protoclusters_differ"):
         return False
     stage = _stage(clause)
+    candidates_ok = bool(_obs(case, "candidates_equal_up_to_order"))
+    regions_ok = candidates_ok and bool(_obs(case, "regions_equal_up_to_order"))
+    unique_ok = bool(_obs(case, "unique_order_only_plain_ties"))
+    areas_ok = regions_ok and unique_ok and bool(_obs(case, "areas_equal_up_to_order"))
     if stage == "candidates":
-        return bool(_obs(case, "candidates_equal_up_to_order"))
+        return candidates_ok
     if stage == "regions":
-        return bool(_obs(case, "candidates_equal_up_to_order")) and bool(_obs(case, "regions_equal_up_to_order"))
-    # GenBank / JSON text: the structural dumps differ, and only in that order
-    return (stage in ("genbank", "json") and bool(_obs(case, "earlier_stage_differs"))
-            and bool(_obs(case, "candidates_equal_up_to_order")) and bool(_obs(case, "regions_equal_up_to_order")))
+        return regions_ok
+    if stage == "unique-protoclusters":
+        return unique_ok
+    if stage == "areas":
+        return areas_ok
+    if stage == "genbank":
+        return regions_ok and bool(_obs(case, "earlier_stage_differs"))
+    # JSON text: the structural dumps differ, and only in those orders
+    return stage == "json" and areas_ok and bool(_obs(case, "earlier_stage_differs"))
 
 
 def _f4(clause: str, case: Any) -> bool:
@@ -494,30 +662,40 @@ def _first_difference(texts: list[str]) -> str:
     return f"...{first[max(0, i - 60):i + 60]!r} vs ...{second[max(0, i - 60):i + 60]!r}"
 
 
+def _case_key(scn: dict[str, Any]) -> str:
+    if scn.get("fn") == "areas":
+        return "A" + json.dumps([scn["circular"], scn["protos"]])
+    return "P" + json.dumps([scn["circular"], scn["choice"]])
+
+
 def compare_pipeline(run: Any, kind: str, scn: dict[str, Any], variants: dict[str, dict[str, str]]) -> None:
     """ variants: {label (seed / permutation): {stage: text-or-digest}}; one check per stage """
-    key = "P" + json.dumps([scn["circular"], scn["choice"]])
+    key = _case_key(scn)
     labels = list(variants)
-    protos = [variants[label].get("protoclusters", "") for label in labels]
+    stages = [stage for stage in STAGES if any(stage in variants[label] for label in labels)]
+
+    def dumps(stage: str) -> list[str]:
+        return [variants[label].get(stage, "") for label in labels]
+    protos = dumps("protoclusters")
     try:
-        nontrivial = any(json.loads(p) for p in protos) and (
-            len({h[1] for h in scn["hits"]}) >= 2 or len(scn["hits"]) > len({h[1] for h in scn["hits"]}))
+        nontrivial = any(json.loads(p) for p in protos) and (scn.get("fn") == "areas" or (
+            len({h[1] for h in scn["hits"]}) >= 2 or len(scn["hits"]) > len({h[1] for h in scn["hits"]})))
     except ValueError:
         nontrivial = True
-    detections = sorted(set(variants[label].get("detection-json", "") for label in labels))
+    detections = sorted(set(dumps("detection-json")))
     observed_base = {"multi_definition": p_multi_definition(detections),
                      "detection_equal_up_to_definition_order": p_detection_equal_up_to_definition_order(detections),
                      "tied_protoclusters": p_tied_protoclusters(protos),
                      "protoclusters_differ": len(set(protos)) > 1,
-                     "candidates_equal_up_to_order": p_equal_up_to_tied_order(
-                         "candidates", [variants[label].get("candidates", "") for label in labels]),
-                     "regions_equal_up_to_order": p_equal_up_to_tied_order(
-                         "regions", [variants[label].get("regions", "") for label in labels])}
+                     "candidates_equal_up_to_order": p_equal_up_to_tied_order("candidates", dumps("candidates")),
+                     "regions_equal_up_to_order": p_equal_up_to_tied_order("regions", dumps("regions")),
+                     "unique_order_only_plain_ties": p_unique_order_only_plain_ties(dumps("unique-protoclusters"), protos),
+                     "areas_equal_up_to_order": p_areas_equal_up_to_order(dumps("areas"))}
     raised = sorted({text for label in labels for text in variants[label].values() if text.startswith("EXCEPTION")})
     _emit(run, f"{kind}/no-unexpected-exception", (raised[0], {"raised": raised[:3]}) if raised else None,
           scn, nontrivial, key)
     earlier_differs = False
-    for stage in STAGES:
+    for stage in stages:
         groups: dict[str, list[str]] = {}
         for label in labels:
             groups.setdefault(variants[label].get(stage, ""), []).append(label)
@@ -531,7 +709,7 @@ def compare_pipeline(run: Any, kind: str, scn: dict[str, Any], variants: dict[st
             observed["earlier_stage_differs"] = earlier_differs
             problem = (f"{kind} {list(groups.values())[:4]}: {shown}", observed)
         _emit(run, f"{kind}/{stage}", problem, scn, nontrivial, key)
-        if len(groups) > 1 and stage in ("protoclusters", "candidates", "regions"):
+        if len(groups) > 1 and stage in ("protoclusters", "candidates", "regions", "unique-protoclusters", "areas"):
             earlier_differs = True
 
 
@@ -617,11 +795,31 @@ def check_filter_layout(run: Any, hits: list[list]) -> None:
 # ------------------------------------------------------------------------------------------
 # children
 
+_PADDING: list[Any] = []
+
+
+class _Pad:  # pylint: disable=too-few-public-methods
+    """ an unrelated object with an instance dict, the same kind of allocation as a Feature """
+    def __init__(self, n: int) -> None:
+        self.n = n
+        self.location = (n, n + 1)
+
+
 def child_eval(arg: dict[str, Any]) -> dict[str, Any]:
-    """ runs in a child interpreter """
+    """ runs in a child interpreter; `pad` unrelated objects are allocated (and kept) first, and a little
+        more before every scenario, so that children differ in memory layout as well as in hash seed """
+    pad = int(arg.get("pad", 0))
+    _PADDING.extend(_Pad(i) for i in range(pad))
+    _PADDING.extend(object() for _ in range(3 * pad))
     out: dict[str, Any] = {}
+
+    def padded(func: Callable[[dict[str, Any]], dict[str, str]], case: dict[str, Any], n: int) -> dict[str, str]:
+        _PADDING.extend(_Pad(i) for i in range((pad * (n + 1)) % 11))
+        return _digest(func(case))
     if "scenarios" in arg:
-        out["pipeline"] = [_digest(run_pipeline(scn)) for scn in arg["scenarios"]]
+        out["pipeline"] = [padded(run_pipeline, scn, n) for n, scn in enumerate(arg["scenarios"])]
+    if "areas" in arg:
+        out["areas"] = [padded(run_areas, case, n) for n, case in enumerate(arg["areas"])]
     if "t_jobs" in arg:
         out["t"] = [[t_eval(case) for case in _t_job_cases(job, arg["chunk"], arg["of"])] for job in arg["t_jobs"]]
     return out
@@ -646,7 +844,7 @@ def _spawn(arg: dict[str, Any], seeds: list[int], run: Any) -> Optional[dict[int
                 return None
             break  # compare the seeds evaluated so far
         try:
-            out[seed] = run_child("bounded.C17", "child_eval", arg, seed)
+            out[seed] = run_child("bounded.C17", "child_eval", dict(arg, pad=seed % 8), seed)
         except Exception as err:  # pylint: disable=broad-except
             run.error(f"hash-seed child {seed}: {err}")
             return None
@@ -659,12 +857,15 @@ def _spawn(arg: dict[str, Any], seeds: list[int], run: Any) -> Optional[dict[int
 def _run_seed(shard: dict[str, Any], run: Any) -> None:
     """ one child per seed evaluates this shard's slice of the pipeline scenarios and of the hit families """
     scns = scenarios(shard["tier"])[shard["chunk"]::shard["of"]]
-    arg = {"scenarios": scns, "t_jobs": shard["jobs"], "chunk": shard["chunk"], "of": shard["of"]}
+    areas = area_cases(shard["tier"])[shard["chunk"]::shard["of"]]
+    arg = {"scenarios": scns, "areas": areas, "t_jobs": shard["jobs"], "chunk": shard["chunk"], "of": shard["of"]}
     results = _spawn(arg, shard["seeds"], run)
     if results is None:
         return
     for k, scn in enumerate(scns):
         compare_pipeline(run, "seed", scn, {str(seed): results[seed]["pipeline"][k] for seed in results})
+    for k, case in enumerate(areas):
+        compare_pipeline(run, "seed", case, {str(seed): results[seed]["areas"][k] for seed in results})
     for j, job in enumerate(shard["jobs"]):
         clause = f"seed/hits-kept ({job['fam']})"
         for k, case in enumerate(_t_job_cases(job, shard["chunk"], shard["of"])):
@@ -688,6 +889,18 @@ def _run_setorder_pipeline(shard: dict[str, Any], run: Any) -> None:
             with permuted_sets(mode):
                 variants[f"perm{mode}"] = _digest(run_pipeline(scn))
         compare_pipeline(run, "setorder", scn, variants)
+
+
+def _run_setorder_areas(shard: dict[str, Any], run: Any) -> None:
+    """ every iteration order (up to 6 / 24 permutations) of the sets behind candidate clusters and regions """
+    for n, case in enumerate(area_cases(shard["tier"])[shard["chunk"]::shard["of"]]):
+        if n % 16 == 0 and run.out_of_time():
+            return
+        variants = {}
+        for mode in shard["modes"]:
+            with permuted_sets(mode):
+                variants[f"perm{mode}"] = _digest(run_areas(case))
+        compare_pipeline(run, "setorder", case, variants)
 
 
 def _run_setorder_t(shard: dict[str, Any], run: Any) -> None:
@@ -718,6 +931,7 @@ def shards(tier: str, seed: int) -> list:
                 {"fam": "hmmer", "cfg": "h1", "sizes": [2, 3]}]
         out += [{"fam": "seed", "tier": tier, "jobs": jobs, "chunk": i, "of": 4, "seeds": seeds} for i in range(4)]
         out += [{"fam": "setorder-pipeline", "tier": tier, "chunk": i, "of": 6, "modes": [0, 1, 2, 3]} for i in range(6)]
+        out += [{"fam": "setorder-areas", "tier": tier, "chunk": 0, "of": 1, "modes": list(range(6))}]
         out += [{"fam": "setorder-t", "cfg": "q3", "sizes": [2, 3], "chunk": i, "of": 2} for i in range(2)]
         out += [{"fam": "setorder-t", "cfg": "q5", "sizes": [2, 3], "chunk": 0, "of": 1}]
         out += [{"fam": "layout", "cfg": "f0", "chunk": 0, "of": 1}, {"fam": "layout", "cfg": "f1", "chunk": 0, "of": 2},
@@ -729,6 +943,7 @@ def shards(tier: str, seed: int) -> list:
             {"fam": "hmmer", "cfg": "h0", "sizes": [2, 3]}]
     out += [{"fam": "seed", "tier": tier, "jobs": jobs, "chunk": i, "of": 16, "seeds": seeds} for i in range(16)]
     out += [{"fam": "setorder-pipeline", "tier": tier, "chunk": i, "of": 16, "modes": list(range(8))} for i in range(16)]
+    out += [{"fam": "setorder-areas", "tier": tier, "chunk": i, "of": 2, "modes": list(range(24))} for i in range(2)]
     for cfg in ("q0", "q1", "q2", "q3", "q5"):
         out += [{"fam": "setorder-t", "cfg": cfg, "sizes": [2, 3], "chunk": i, "of": 4} for i in range(4)]
     out += [{"fam": "setorder-t", "cfg": "q4", "sizes": [4], "chunk": i, "of": 4} for i in range(4)]
@@ -744,6 +959,8 @@ def run_shard(shard: dict[str, Any], run: Any) -> None:
         _run_seed(shard, run)
     elif fam == "setorder-pipeline":
         _run_setorder_pipeline(shard, run)
+    elif fam == "setorder-areas":
+        _run_setorder_areas(shard, run)
     elif fam == "setorder-t":
         _run_setorder_t(shard, run)
     elif fam == "layout":
@@ -769,6 +986,17 @@ def replay(case: dict[str, Any]) -> list[str]:
             results = _spawn({"scenarios": [plain]}, seeds[:8], col)
             if results is not None:
                 compare_pipeline(col, "seed", plain, {str(s): results[s]["pipeline"][0] for s in results})
+    elif fn == "areas":
+        variants = {}
+        for mode in range(6):
+            with permuted_sets(mode):
+                variants[f"perm{mode}"] = _digest(run_areas(plain))
+        compare_pipeline(col, "setorder", plain, variants)
+        seeds = sorted({int(s) for label in (_obs(case, "by_variant") or {}) for s in label.split(",") if s.isdigit()})
+        if seeds:
+            results = _spawn({"areas": [plain]}, seeds[:8], col)
+            if results is not None:
+                compare_pipeline(col, "seed", plain, {str(s): results[s]["areas"][0] for s in results})
     elif fn == "refine":
         check_refine_setorder(col, plain)
         stored = _obs(case, "seeds")
